@@ -36,6 +36,16 @@ pub open spec fn all_supplies(fs: Seq<ClassFeature>) -> Seq<Dependency> decrease
 // `v.iter().flat_map(|x| x.supplies()).collect()`: every feature's supplies, concatenated in order (iteration order of slice::Iter + FlatMap)
 #[verifier::external_body] pub fn flat_map_supplies(v: &Vec<ClassFeature>) -> (r: Vec<Dependency>) ensures r@ == all_supplies(v@) { unimplemented!() }
 #[verifier::external_body] pub fn vec_append(a: &mut Vec<Dependency>, b: &mut Vec<Dependency>) ensures final(a)@ == old(a)@ + old(b)@ { unimplemented!() }
+// ---- dependencies: every feature's own free variables (net of its own parameters / locals: MemberFunction::dependencies is its body's
+// net dependencies, and get_net_dependencies -- unit c07_net_deps -- subtracts the parameters), then the constructor's
+pub uninterp spec fn feature_net(f: ClassFeature) -> Seq<Dependency>;
+pub uninterp spec fn ctor_net(c: &Constructor) -> Seq<Dependency>;
+impl ClassFeature { #[verifier::external_body] pub fn net_dependencies(&self) -> (r: Vec<Dependency>) ensures r@ == feature_net(*self) { unimplemented!() } }
+impl Constructor { #[verifier::external_body] pub fn net_dependencies(&self) -> (r: Vec<Dependency>) ensures r@ == ctor_net(self) { unimplemented!() } }
+pub open spec fn all_net(fs: Seq<ClassFeature>) -> Seq<Dependency> decreases fs.len() {
+    if fs.len() == 0 { Seq::empty() } else { all_net(fs.drop_last()) + feature_net(fs.last()) }
+}
+#[verifier::external_body] pub fn flat_map_net(v: &Vec<ClassFeature>) -> (r: Vec<Dependency>) ensures r@ == all_net(v@) { unimplemented!() }
 pub struct ClassBody { pub features: Vec<ClassFeature>, pub constructor: Constructor }
 pub proof fn lemma_fields_step(fs: Seq<ClassFeature>, k: int) requires 0 <= k < fs.len()
     ensures fs.subrange(0, k + 1).drop_last() == fs.subrange(0, k), fs.subrange(0, k + 1).last() == fs[k]
@@ -77,7 +87,14 @@ def build(repo):
         b = r.apply(b, log)
     b = Rule("R13", "vec_append ( & mut $a , & mut $b . supplies ( ) )", "{ let mut verif_t = $b . supplies ( ) ; vec_append ( & mut $a , & mut verif_t ) }", why="temporary bound to a name (same evaluation)").apply(b, log)
     check_closed(b, "ClassBody::supplies")
-    gen = header(log, f"{FILE}: impl Dependencies for ClassBody :: supplies") + SPEC + f"""
+    fd = extract_fn(it["body"], "dependencies")
+    bd = translate(list(fd["body"]), [
+        Rule("R2", "self . features . iter ( ) . flat_map ( | $x | $x . net_dependencies ( ) ) . collect ( )", "flat_map_net ( & self . features )", why="iter().flat_map(|x| x.net_dependencies()).collect(): every feature's free variables in order"),
+        Rule("R13", "$a . append ( & mut $$b )", "vec_append ( & mut $a , & mut $$b )", why="Vec::append"),
+    ], log, "ClassBody::dependencies", generic=False)
+    bd = Rule("R13", "vec_append ( & mut $a , & mut $b . constructor . net_dependencies ( ) )", "{ let mut verif_t = $b . constructor . net_dependencies ( ) ; vec_append ( & mut $a , & mut verif_t ) }", why="temporary bound to a name (same evaluation)").apply(bd, log)
+    check_closed(bd, "ClassBody::dependencies")
+    gen = header(log, f"{FILE}: impl Dependencies for ClassBody :: supplies, dependencies") + SPEC + f"""
 impl ClassBody {{
     //@ OBL C07.class.supplies-only-fields
     #[verifier::loop_isolation(false)]
@@ -86,11 +103,18 @@ impl ClassBody {{
     {{
 {render(b, 2)}
     }}
+    //@ OBL C07.class.dependencies-all
+    pub fn dependencies(&self) -> (r: Vec<Dependency>)
+        ensures r@ == all_net(self.features@) + ctor_net(&self.constructor),     // every method's free variables and the constructor's: none dropped
+    {{
+{render(bd, 2)}
+    }}
 }}
 }} // verus!
 fn main() {{}}
 """
-    return gen, [Obl("C07.class.supplies-only-fields", ["C07", "C08"], fn="ClassBody::supplies", desc="ClassBody::supplies: a class body declares its member variables and nothing else (the parameters of one method never hide a captured variable from another)")], log
+    return gen, [Obl("C07.class.dependencies-all", ["C07", "C08"], fn="ClassBody::dependencies", desc="ClassBody::dependencies: the free variables of every method (net of its own parameters) and of the constructor, none dropped"),
+                 Obl("C07.class.supplies-only-fields", ["C07", "C08"], fn="ClassBody::supplies", desc="ClassBody::supplies: a class body declares its member variables and nothing else (the parameters of one method never hide a captured variable from another)")], log
 
 
 UNITS = [VUnit("c07_class_deps", ["C07", "C08"], "capture analysis of a class: what the class body itself declares", build)]
